@@ -169,3 +169,18 @@ UNITS.append(dict(
     functions=[dict(name='_dbus_marshal_read_basic/_dbus_marshal_read_uint32', file=BASIC, status='enforced',
                     contract='value = specification decoding of the bytes at the aligned position, both byte orders, all basic types; new_pos just behind the value; string of symbolic size')],
     assumptions=['the value lies inside the string (precondition; established by the body validator)']))
+
+# ---- _dbus_type_reader_read_fixed_multi away from the array start (B) -------------------------------------------
+FM_CATALOGUE = [('au', 16, [(0, 12)], 3), ('au', 4, [(0, 0)], 0), ('ax', 24, [(0, 16)], 2), ('ay', 7, [(0, 3)], 3), ('an', 10, [(0, 6)], 3), ('yau', 16, [(4, 8)], 2), ('ad', 16, [(0, 8)], 1)]
+for _i, (_sig, _n, _fix, _ne) in enumerate(FM_CATALOGUE):
+    for _le, _tier in ((_i % 2, 'quick'), (1 - _i % 2, 'thorough')):
+        _asg = 'in_len=%d;' % _n + ''.join(_w(_le, o, v) for o, v in _fix)
+        UNITS.append(dict(name='C01.fixed_multi.%s.%s%d' % (_sig, 'le' if _le else 'be', _n), props=['C01', 'C10'], kind='B', route='plain', tus=ITER_TUS,
+                          harness='harness/c01h_fixedmulti.c', extra_sources=[ASSERT, 'stubs/list_as_stack.c'],
+                          defines=['VERIF_N=%d' % _n, 'VERIF_LE=%d' % _le, 'VERIF_SIG="%s"' % _sig, 'VERIF_NELEMS=%d' % _ne, 'VERIF_BODY_ASSIGN=%s' % _asg], unwind=_n + 6, timeout=1800, tier=_tier, expect_s=20,
+                          bounds={'signature': _sig, 'body_bytes': _n, 'byte_order': 'little' if _le else 'big', 'constant_length_words': 'body length %d, array length word (offset, value): %s' % (_n, _fix),
+                                  'positions': 'after k = 0 .. n-1 calls of _dbus_type_reader_next (and k = 0 on the empty array)'},
+                          functions=[dict(name='_dbus_type_reader_read_fixed_multi', file=REC, status='bounded'),
+                                     dict(name='_dbus_type_reader_init/_recurse/_next/_get_current_type (array reader)', file=REC, status='bounded'),
+                                     dict(name='_dbus_validate_body_with_reason', file=VAL, status='bounded', note='as the precondition "accepted body"')],
+                          assumptions=['dbus-list behaves as a LIFO stack of integers in the signature validator (stub, not verified)']))
